@@ -399,6 +399,24 @@ pub fn number_spellings(syntax: &str) -> Vec<String> {
         for h in ["0x.8", "0x1.8", "0xA.", "0x1p4", "0x1P-1", "0x.8p1", "0xA.8P+2", "0x1.fp10"] {
             v.push(h.to_string());
         }
+        // hexadecimal fractions over the digits that look like decimal syntax (0, e, E) and others
+        for i in ["0x1", "0xA", "0xe", "0x"] {
+            for f in ["0", "5", "e", "E", "a", "00", "50", "0e", "e0", "50e", "20e", "00E", "5e0", "e5", "0E0", "e00", "1e5", "1E+"] {
+                if f.ends_with('+') {
+                    continue;
+                }
+                for x in ["", "p1", "P-4", "p+2"] {
+                    v.push(format!("{i}.{f}{x}"));
+                }
+            }
+        }
+    }
+    // trailing and leading zeroes of decimal spellings
+    for d in ["1.50", "2.500e3", "1.0e0", "10.00", "100", "1.50E+5", "0.10", "00.5", "1.000", "100e0", "1e00", "1e010", "5.0e-0", "0e0", "0.0e10", "1.0e+05"] {
+        v.push(d.to_string());
+    }
+    for h in ["0x00", "0x0e", "0xe0", "0x0E0", "0xE", "0x1e5", "0x1E5", "0xe5e", "0X0e0"] {
+        v.push(h.to_string());
     }
     if matches!(syntax, "Luau" | "All") {
         for b in ["0b0", "0b101", "0B1111", "1_000", "1_000_000.5", "0x_ff", "0xff_ff", "0b1_0", "1e1_0", "1__0"] {
